@@ -2855,12 +2855,18 @@ pub(crate) mod convert {
                 read::AttributeValue::Udata(val) => AttributeValue::Udata(val),
                 read::AttributeValue::Exprloc(expression) => {
                     if attr.name() == constants::DW_AT_vtable_elem_location {
-                        let bytecode = expression.0.to_slice()?;
-                        if bytecode.first().copied() == Some(constants::DW_OP_constu.0) {
+                        let mut bytecode = expression.0.clone();
+                        if bytecode.read_u8() == Ok(constants::DW_OP_constu.0)
+                            && bytecode.read_uleb128().is_ok()
+                            && bytecode.is_empty()
+                        {
                             // This is a vtable index. We must preserve the DW_OP_constu
                             // operation because gdb checks for it.
                             // `convert_expression` is unsuitable because it may convert
                             // to something like DW_OP_lit0.
+                            // Anything following the DW_OP_constu must be converted, so
+                            // only do this if it is the only operation.
+                            let bytecode = expression.0.to_slice()?;
                             return Ok(AttributeValue::Exprloc(Expression::raw(bytecode.to_vec())));
                         }
                     }
